@@ -184,7 +184,7 @@ def workbook_case(rng, n, kf, saves=2, far=False):
             if c in colnums:
                 continue
             colnums.add(c)
-            cols.append({"c": c, "w": rng.choice(WIDTHS + ["8.38"]), "hid": rng.random() < 0.2, "sty": s})
+            cols.append({"c": c, "w": rng.choice(WIDTHS + ["8.38"]), "hid": rng.random() < 0.2, "bf": rng.random() < 0.2, "sty": s})
             if rng.random() < 0.5 and c + 1 not in colnums and c + 1 <= MAXCOL:      # adjacent column: same or almost the same
                 colnums.add(c + 1)
                 twin = dict(cols[-1], c=c + 1)
@@ -196,7 +196,7 @@ def workbook_case(rng, n, kf, saves=2, far=False):
             if r in rownums:
                 continue
             rownums.add(r)
-            rows.append({"r": r, "ht": rng.choice(HEIGHTS + ["0"]), "hid": rng.random() < 0.2, "sty": s})
+            rows.append(dict(row_dims(rng), r=r, sty=s))
         else:
             while True:
                 if far and rng.random() < 0.1:
@@ -212,12 +212,12 @@ def workbook_case(rng, n, kf, saves=2, far=False):
         r = rng.randint(1, rows_hi + 25)
         if r not in rownums:
             rownums.add(r)
-            rows.append({"r": r, "ht": rng.choice(HEIGHTS), "hid": rng.random() < 0.3, "sty": EMPTY()})
+            rows.append(dict(row_dims(rng), r=r, sty=EMPTY()))
     for _ in range(rng.randint(0, 3)):
         c = rng.randint(1, 70)
         if c not in colnums:
             colnums.add(c)
-            cols.append({"c": c, "w": rng.choice(WIDTHS), "hid": rng.random() < 0.3, "sty": EMPTY()})
+            cols.append({"c": c, "w": rng.choice(WIDTHS), "hid": rng.random() < 0.3, "bf": rng.random() < 0.3, "sty": EMPTY()})
     steps = [{"a": "Init"}, {"a": "Assign", "cells": cells, "rows": rows, "cols": cols}]
     for k in range(saves):
         steps += [{"a": "Save"}, {"a": "Reload"}]
@@ -280,7 +280,39 @@ def normalize(case):
                     nf = x["sty"]["numFmt"]
                     if nf and isinstance(nf[0], str):
                         x["sty"]["numFmt"] = [{"code": nf[0], "id": 0}]
+            for x in st["rows"]:            # the components of a row dimension: what set_height alone leaves behind
+                x.setdefault("ch", x["ht"] != "0")
+                x.setdefault("ord", "hc")
+                x.setdefault("tb", False)
+                x.setdefault("dd", "0")
+            for x in st["cols"]:
+                x.setdefault("bf", False)
     return case
+
+
+def row_dims(rng):
+    """Height with customHeight on / off in both orders of the two setters, hidden, thickBot, dyDescent."""
+    ht = rng.choice(HEIGHTS + ["0"])
+    return {"ht": ht, "ch": rng.random() < (0.6 if ht != "0" else 0.15), "ord": rng.choice(["hc", "hc", "ch"]),
+            "hid": rng.random() < 0.2, "tb": rng.random() < 0.15, "dd": rng.choice(["0", "0", "0.25", "0.2"])}
+
+
+def dims_examples():
+    """Every component of a row / column dimension on its own and in combination (one workbook, two generations)."""
+    rows, r = [], 1
+    for ht in ("0", "30"):
+        for ch in (False, True):
+            for order in ("hc", "ch"):
+                for hid, tb, dd in ((False, False, "0"), (True, False, "0"), (False, True, "0"), (False, False, "0.25"), (True, True, "0.2")):
+                    rows.append({"r": r, "ht": ht, "ch": ch, "ord": order, "hid": hid, "tb": tb, "dd": dd, "sty": EMPTY()})
+                    r += 1
+    cols = [{"c": 2 * i + 1, "w": w, "hid": hid, "bf": bf, "sty": EMPTY()}
+            for i, (w, hid, bf) in enumerate((w, h, b) for w in ("12.5", "8.38") for h in (False, True) for b in (False, True))]
+    return [{"steps": [{"a": "Init"}, {"a": "Assign", "cells": [], "rows": rows, "cols": cols}] + rounds(1, 2)},
+            # the auto-fitted row of a spreadsheet application: <row ht=".."/> without customHeight, with a cell and a style
+            {"steps": [{"a": "Init"}, {"a": "Assign", "cells": [{"r": 3, "c": 2, "sty": with_(font=font("Arial", "20"))}],
+                                       "rows": [{"r": 3, "ht": "30", "ch": False, "ord": "hc", "hid": False, "tb": False, "dd": "0",
+                                                 "sty": EMPTY()}], "cols": []}] + rounds(1, 2)}]
 
 
 def cell_assign(w, styles_at):
@@ -389,7 +421,7 @@ def gen_cases(chk):
     rng = chk.rng
     quick = chk.tier == "quick"
     kf = {i: True for i in chk.open_ids}
-    cases = finding_cases() + import_examples()
+    cases = finding_cases() + import_examples() + dims_examples()
     nfix = len(cases)
     r = vlib.run_tlc("MC_Styles", "MC_Styles_replay.cfg", workers=4, coverage=False, timeout=3000)
     if not r.ok or not r.replays:
@@ -536,7 +568,8 @@ def run(chk):
                 "objects in which the Style of a cell of one (fresh or loaded from a file) is set on a cell, row or column of the "
                 "other, both directions, with custom number formats / fonts / fills under the same table ids (examples, "
                 "TLC-simulated, seeded random; thorough: + sampled paths of the bounded model); distinct = different step lists, "
-                "non-trivial = at least one styled carrier")
+                "non-trivial = at least one styled carrier; row dimensions are given as height, customHeight (both orders of the "
+                "two setters), hidden, thickBot, dyDescent, column dimensions as width, hidden, bestFit, in every combination")
     i0 = chk.extra["cases"]["finding_examples"]
     chk.sample({"script": cases[i0]["steps"], "observed_after_reload": events[i0][3]["obs"]})
     last = cases[-1]
